@@ -161,14 +161,41 @@ class Arr:
     def __gt__(self, o):
         return self._zip(o, lambda a, b: a > b, 'bool')
 
+    def __le__(self, o):
+        return self._zip(o, lambda a, b: a <= b, 'bool')
+
+    def __ge__(self, o):
+        return self._zip(o, lambda a, b: a >= b, 'bool')
+
     def __sub__(self, o):
         return self._zip(o, lambda a, b: a - b)
+
+    def __rsub__(self, o):
+        return self._zip(o, lambda a, b: b - a)
+
+    def __truediv__(self, o):
+        return self._zip(o, lambda a, b: symx.exact_div(a, b))
+
+    def __rtruediv__(self, o):
+        return self._zip(o, lambda a, b: symx.exact_div(b, a))
+
+    def __neg__(self):
+        return Arr([-a for a in self.data], self.dtype)
+
+    def __and__(self, o):
+        return self._zip(o, lambda a, b: a & b, 'bool')
+
+    def __or__(self, o):
+        return self._zip(o, lambda a, b: a | b, 'bool')
 
     def __add__(self, o):
         return self._zip(o, lambda a, b: a + b)
 
     def __mul__(self, o):
         return self._zip(o, lambda a, b: a * b)
+
+    __radd__ = __add__
+    __rmul__ = __mul__
 
     __hash__ = None
 
